@@ -179,14 +179,14 @@ Lemma des_S_leak_snd : forall x, snd (des_S_leak x) = des_S_trace.
 Proof. intros. unfold des_S_leak. rewrite des_S_leak_aux_snd. reflexivity. Qed.
 
 Lemma des_f_leak_fst : forall r k, fst (des_f_leak r k) = des_f r k.
-Proof. intros. unfold des_f_leak. rewrite ?fst_bind, ?fst_ret, des_S_leak_fst. reflexivity. Qed.
+Proof. intros. unfold des_f_leak, des_f. rewrite ?fst_bind, ?fst_ret, des_S_leak_fst. reflexivity. Qed.
 Lemma des_f_leak_snd : forall r k, snd (des_f_leak r k) = des_S_trace.
 Proof. intros. unfold des_f_leak. autorewrite with leak. apply des_S_leak_snd. Qed.
 
 Lemma des_round_leak_fst : forall lr k, fst (des_round_leak lr k) = des_round lr k.
 Proof.
-  intros [l r] k. unfold des_round_leak, des_round. rewrite ?fst_bind, ?fst_ret, des_f_leak_fst.
-  reflexivity.
+  intros [l r] k. unfold des_round_leak, des_round. cbn [fst snd].
+  rewrite ?fst_bind, ?fst_ret, des_f_leak_fst. reflexivity.
 Qed.
 Lemma des_round_leak_snd : forall lr k, snd (des_round_leak lr k) = des_S_trace.
 Proof. intros. unfold des_round_leak. autorewrite with leak. apply des_f_leak_snd. Qed.
